@@ -466,6 +466,8 @@ def case_layout(ctx, idx, rng):
         opts += [mx - 1, mx, mx, mx + 1, mx + 1]
     if nmax is not None:
         opts += [math.ceil(nmax / f), math.ceil(nmax / f) + 1]
+        if idx % 3 == 0:  # layouts whose filling limit admits one atom more than the device does
+            opts = [math.ceil((nmax + 1) / f), math.ceil((nmax + 1) / f) + 2]
     T = max(1, min(70, pick(rng, opts)))
     traps, motif = grid_traps(rng, T, dp, dim)
     ctx.case = {"kind": "layout", "device": dspec, "motif": motif, "traps": [list(p) for p in traps]}
@@ -512,6 +514,14 @@ def case_layout(ctx, idx, rng):
         em = call(Sequence, MappableRegister(layout, *ids), dev)
         judge(ctx, "Sequence(mappable register, device)", em, mres, ids=rids, trap_ids=tids, n=n, ntraps=T, dp=dp,
               family="layout")
+        if em is None:
+            # the concrete register only exists at build: that is when "sequence creation" decides about its atoms
+            # (their number in particular - a layout may hold more atoms within its filling than the device allows)
+            mseq = Sequence(MappableRegister(layout, *ids), dev)
+            eb = call(lambda: mseq.build(qubits=dict(zip(ids, sel))))
+            ctx.count("mappable_builds_judged")
+            judge(ctx, "Sequence(mappable register, device).build(qubits=...)", eb, res, ids=rids, trap_ids=tids, n=n,
+                  ntraps=T, dp=dp)
         if n in (lo, lo + 1, hi, hi + 1):
             at_limit = True
     if at_limit:
@@ -599,7 +609,12 @@ def case_autolayout(ctx, idx, rng):
         ctx.gray("with_automatic_layout:RuntimeError(documented)")
         return
     except Exception as e:
-        ctx.gray("with_automatic_layout-raised:" + type(e).__name__)
+        # only "no site found" (RuntimeError) is a documented way not to produce a register
+        if res0["verdict"] == G.ACCEPT:
+            ctx.violation("closure", f"with_automatic_layout({dev.name}) of a register that fits the device raised "
+                          f"{type(e).__name__}: {str(e)[:300]}", f"auto-layout-raises:{type(e).__name__}")
+        else:
+            ctx.gray("with_automatic_layout-raised:" + type(e).__name__)
         return
     ctx.count("closure_registers_checked")
     rids2, coords2 = qubit_coords(reg2)
